@@ -63,6 +63,9 @@ def jobs(tier, seed):
     for dt in ('float32', 'uint8'):
         out.append({'name': 'true_color-' + dt, 'kind': 'true_color', 'fn': 'true_color', 'shape': [1, 2], 'dtype': dt})
     out.append({'name': 'true_color-2x2', 'kind': 'true_color', 'fn': 'true_color', 'shape': [2, 2], 'dtype': 'float64'})
+    # alpha must be decided on the red band as given, not on a float32-rounded copy (float32 store model; float64 and int32 bands)
+    for dt in ('float64', 'int32'):
+        out.append({'name': 'true_color-alpha-float32-store-model-' + dt, 'kind': 'true_color', 'fn': 'true_color', 'shape': [1, 2], 'dtype': dt, 'f32': True})
     return out
 
 
@@ -158,6 +161,8 @@ def body(ctx, job):
 def body_true_color(ctx, job):
     h, w = job['shape']
     dt = job['dtype']
+    if job.get('f32'):
+        sc.set_axioms(f32_store_round=True)
     r = _band(ctx, 'r', (h, w), dt)
     g = _band(ctx, 'g', (h, w), dt)
     b = _band(ctx, 'b', (h, w), dt)
